@@ -15,8 +15,8 @@ RULE = ("sequences (<=30 steps) of {def script function / new overload (int, str
         "used files, locals, the value of every global binding created by `global`/set_global and never assigned in place, and a probe call of every modelled function with an int and a string argument. non-trivial = >=1 set_state to a "
         "snapshot that is not the latest state followed by a probe of something added or shadowed in between; distinct = distinct step sequences")
 
-SNAMES = ["zz_s1", "zz_s2", "zz_s3"]
-CNAMES = ["zz_c1", "zz_c2"]
+SNAMES = ["zz_s1", "zz_s2", "zz_s12", "zz_s"]      # some names are prefixes of others: a lookup must compare whole names
+CNAMES = ["zz_c1", "zz_c12"]
 GNAMES = ["zz_g1", "zz_g2"]
 KNAMES = ["zz_k1", "zz_k2"]
 TNAMES = ["ZzT1", "ZzT2"]
